@@ -85,6 +85,25 @@ def gen_td(rng, kind):
     if kind == "lazy":
         members = [TensorDict({"a": leaf(i, [2], torch.float32), "b": leaf(i + 1, [], torch.int64)}, batch_size=b[1:], device=device) for i in range(b[0])]
         td = LazyStackedTensorDict(*members, stack_dim=0)
+    if kind == "lazy-dim1":
+        # a lazy stack along dim 1 (and, every other time, the last dim written as -1) with a name on the stack dim, members with an entry of
+        # their own shape each, a nested tensordict and a non-tensor entry
+        k = rng.choice([2, 3])
+        members = [TensorDict({"a": leaf(i, [2], torch.float32) + i, "h": mk_tensor(rng, torch.int16, [b[0], i + 1], i),
+                               "n": TensorDict({"x": leaf(i + 2, [], torch.int64)}, batch_size=[b[0]], device=device), "s": f"m{i}"},
+                              batch_size=[b[0]], device=device) for i in range(k)]
+        for m_ in members:
+            m_["a"] = m_["a"][..., :2].reshape(b[0], -1)[:, :2] if m_["a"].dim() > 2 else m_["a"]
+        td = LazyStackedTensorDict(*members, stack_dim=rng.choice([1, -1]), stack_dim_name=rng.choice([None, "env"]))
+    if kind == "lazy-nested":
+        # a lazy stack of lazy stacks, and a tensorclass inside the members
+        inner = [LazyStackedTensorDict(*[TensorDict({"a": torch.full((2,), float(10 * i + j)), "p": tc_cls()(u=torch.full((2, 2), float(j)), v=torch.full((2,), i, dtype=torch.int16), tag=f"t{i}{j}", batch_size=[2])},
+                                                    batch_size=[2], device=device) for j in range(2)], stack_dim=0) for i in range(rng.choice([2, 3]))]
+        td = LazyStackedTensorDict(*inner, stack_dim=rng.choice([0, 1]))
+    if kind == "scalar-batch":
+        td = TensorDict({"a": torch.tensor(1.5), "i": torch.tensor(3, dtype=torch.int16), "n": TensorDict({"x": torch.arange(3.0), "z": torch.zeros(0)}, batch_size=[], device=device)},
+                        batch_size=[], device=device)
+        td.set_non_tensor("o", "a string")
     if kind == "tensorclass":
         td = tc_cls()(u=leaf(0, [2], torch.float32), v=leaf(1, [], torch.int16), tag="T", batch_size=b, device=device)
     if kind == "njt":
@@ -113,7 +132,7 @@ def gen_td(rng, kind):
     return td
 
 
-KINDS = ["plain", "nested", "nested-batch", "mixed", "empty-node", "nontensor", "nontensor-num", "nontensor-stack", "noncontig", "zero", "flat1d", "lazy", "tensorclass", "njt", "njt2", "lazy12"]
+KINDS = ["plain", "nested", "nested-batch", "mixed", "empty-node", "nontensor", "nontensor-num", "nontensor-stack", "noncontig", "zero", "flat1d", "lazy", "tensorclass", "njt", "njt2", "lazy12", "lazy-dim1", "lazy-nested", "scalar-batch"]
 
 
 def trips(td, scratch, rng):
@@ -208,8 +227,14 @@ def applicable(name, kind, td):
         return kind == "flat1d"
     if kind == "njt2":
         kind = "njt"
-    if kind == "lazy12":
+    if kind == "lazy-nested" and name.startswith("consolidate(file"):
+        # a custom tensorclass *inside* the structure has no json form: consolidate(filename=...) says so itself ("Failed to convert
+        # the metadata to json … such as custom TensorClass"); in memory / pickle / deepcopy it is carried
+        return False
+    if kind in ("lazy12", "lazy-dim1", "lazy-nested"):
         kind = "lazy"
+    if kind == "scalar-batch" and name == "struct_array":
+        return False
     if name == "namedtuple" and kind in ("lazy", "tensorclass", "njt", "nontensor-stack"):
         return False
     if name.startswith(("consolidate(file over", "consolidate(file, use_buffer")) and kind in ("tensorclass", "njt"):
@@ -421,6 +446,18 @@ def run_pytree(run, drv):
             impl = ["err", f"{type(e).__name__}: {str(e)[:120]}"]
         m = parse_sx(drv.ask(sx("c11.todict", Raw(td_sx(td)))))
         run.corr("to_dict(dict, from_dict)", td_sx(td)[:500], impl, [m[0], m[1]])
+        # the same through nested namedtuples (fields = keys in order; no names argument on the way back)
+
+        def nt_shape(nt):
+            return ["d"] + [[k, nt_shape(v)] if hasattr(v, "_fields") else [k, ["l", int(v.reshape(-1)[0])]] for k, v in zip(nt._fields, nt)]
+        try:
+            nt = td.to_namedtuple()
+            back = TensorDict.from_namedtuple(nt, batch_size=td.batch_size, device=td.device)
+            impl = [nt_shape(nt), tree(back)]
+        except Exception as e:  # noqa: BLE001
+            impl = ["err", f"{type(e).__name__}: {str(e)[:120]}"]
+        m = parse_sx(drv.ask(sx("c11.namedtuple", Raw(td_sx(td)))))
+        run.corr("to_namedtuple(namedtuple, from_namedtuple)", td_sx(td)[:500], impl, [m[0], m[1]])
 
     for it in range(60 if quick else 600):
         b = rng.choice([[2], [3], [2, 2], []])
